@@ -296,7 +296,11 @@ Definition ref_topic (r : ref) (chan topic : str) : ref := upd_chan r chan (fun 
 
 (* RPL_WHOREPLY: "<hopcount> <realname>" *)
 Fixpoint drop_digits (s : str) : str := match s with b :: r => if is_digit b then drop_digits r else s | [] => [] end.
-Definition who_realname (last : str) : str := match drop_digits last with 32 :: r => r | s => s end.
+Definition who_realname (last : str) : str :=
+  match drop_digits last with
+  | b :: r => if b =? 32 then r else b :: r
+  | [] => []
+  end.
 
 Fixpoint isupport (opts : amap str) (toks : list str) : amap str :=
   match toks with
@@ -438,9 +442,8 @@ Definition ok_hopreal (s : str) : bool :=
   | b :: _ =>
       is_digit b && Nat.leb (length s - length (drop_digits s)) 57 &&
       match drop_digits s with
-      | 32 :: 32 :: _ => false
-      | 32 :: _ => true
-      | _ => false
+      | b1 :: rest => (b1 =? 32) && negb (match rest with b2 :: _ => b2 =? 32 | [] => false end)
+      | [] => false
       end
   end.
 
